@@ -19,9 +19,9 @@ EXTENDS Naturals, Sequences, FiniteSets, TLC
 
 \* ---------------------------------------------------------------- characters
 \* ASCII letters that can occur in inputs or in outputs (prefixes, suffixes, case maps)
-ALo == {"n","o","t","e","f","i","l","d","a","g","x","p","h","r","q","u","y","c","k","s","v"}
-AUp == {"N","T","O","E","F","I","L","D","A","G","X","P","H","R","Q","U","Y","C","K","S","V"}
-Dig == {"1","0","2"}
+ALo == {"n","o","t","e","f","i","l","d","a","g","x","p","h","r","q","u","y","c","k","s","v","b","j","m","w","z"}
+AUp == {"N","T","O","E","F","I","L","D","A","G","X","P","H","R","Q","U","Y","C","K","S","V","B","J","M","W","Z"}
+Dig == {"1","0","2","3","4","5","6","7","8","9"}
 Delim == {"."," ","_","-"}
 \* non-ASCII representatives (labels):
 \*  LE  e-acute  : \w, lower, XID            UE  E-acute : \w, upper (Unicode only), XID
@@ -42,6 +42,7 @@ XCont  == XStart \cup Dig \cup {"AD"}
 LoPairs == << <<"n","N">>, <<"o","O">>, <<"t","T">>, <<"e","E">>, <<"f","F">>, <<"i","I">>, <<"l","L">>,
               <<"d","D">>, <<"a","A">>, <<"g","G">>, <<"x","X">>, <<"p","P">>, <<"h","H">>, <<"r","R">>,
               <<"q","Q">>, <<"u","U">>, <<"y","Y">>, <<"c","C">>, <<"k","K">>, <<"s","S">>, <<"v","V">>,
+              <<"b","B">>, <<"j","J">>, <<"m","M">>, <<"w","W">>, <<"z","Z">>,
               <<"LE","UE">>, <<"FWA","FWUA">> >>
 Lower(c) == IF \E k \in 1..Len(LoPairs) : LoPairs[k][2] = c
             THEN LoPairs[CHOOSE k \in 1..Len(LoPairs) : LoPairs[k][2] = c][1] ELSE c
@@ -88,12 +89,77 @@ Cap(w) == IF w = <<>> THEN w ELSE <<Upper(w[1])>> \o Map(Lower, Tail(w))
 Pascal(s) == LET ws == SplitWords(Sanitize(s))
              IN JoinW([i \in 1..Len(ws) |-> IF IsUpperWord(ws[i]) THEN ws[i] ELSE Cap(ws[i])], <<>>)
 
-\* reserved words constructible over the token alphabet (builtins | keywords | extras) - see harness/names.py
-Reserved == { <<"n","o","t">>, <<"N","o","n","e">>, <<"i","n">>, <<"i","n","t">> }
+\* transcription of utils.RESERVED_WORDS (builtins of CPython 3.12 | self, true, false, datetime | names used by the generated model classes) - {id}, plus keywords
+Reserved == {
+  <<"A","r","i","t","h","m","e","t","i","c","E","r","r","o","r">>, <<"A","s","s","e","r","t","i","o","n","E","r","r","o","r">>, 
+  <<"A","t","t","r","i","b","u","t","e","E","r","r","o","r">>, <<"B","a","s","e","E","x","c","e","p","t","i","o","n">>, 
+  <<"B","a","s","e","E","x","c","e","p","t","i","o","n","G","r","o","u","p">>, <<"B","l","o","c","k","i","n","g","I","O","E","r","r","o","r">>, 
+  <<"B","r","o","k","e","n","P","i","p","e","E","r","r","o","r">>, <<"B","u","f","f","e","r","E","r","r","o","r">>, 
+  <<"B","y","t","e","s","W","a","r","n","i","n","g">>, <<"C","h","i","l","d","P","r","o","c","e","s","s","E","r","r","o","r">>, 
+  <<"C","o","n","n","e","c","t","i","o","n","A","b","o","r","t","e","d","E","r","r","o","r">>, 
+  <<"C","o","n","n","e","c","t","i","o","n","E","r","r","o","r">>, 
+  <<"C","o","n","n","e","c","t","i","o","n","R","e","f","u","s","e","d","E","r","r","o","r">>, 
+  <<"C","o","n","n","e","c","t","i","o","n","R","e","s","e","t","E","r","r","o","r">>, 
+  <<"D","e","p","r","e","c","a","t","i","o","n","W","a","r","n","i","n","g">>, <<"E","O","F","E","r","r","o","r">>, 
+  <<"E","l","l","i","p","s","i","s">>, <<"E","n","c","o","d","i","n","g","W","a","r","n","i","n","g">>, 
+  <<"E","n","v","i","r","o","n","m","e","n","t","E","r","r","o","r">>, <<"E","x","c","e","p","t","i","o","n">>, 
+  <<"E","x","c","e","p","t","i","o","n","G","r","o","u","p">>, <<"F","a","l","s","e">>, 
+  <<"F","i","l","e","E","x","i","s","t","s","E","r","r","o","r">>, <<"F","i","l","e","N","o","t","F","o","u","n","d","E","r","r","o","r">>, 
+  <<"F","l","o","a","t","i","n","g","P","o","i","n","t","E","r","r","o","r">>, <<"F","u","t","u","r","e","W","a","r","n","i","n","g">>, 
+  <<"G","e","n","e","r","a","t","o","r","E","x","i","t">>, <<"I","O","E","r","r","o","r">>, <<"I","m","p","o","r","t","E","r","r","o","r">>, 
+  <<"I","m","p","o","r","t","W","a","r","n","i","n","g">>, <<"I","n","d","e","n","t","a","t","i","o","n","E","r","r","o","r">>, 
+  <<"I","n","d","e","x","E","r","r","o","r">>, <<"I","n","t","e","r","r","u","p","t","e","d","E","r","r","o","r">>, 
+  <<"I","s","A","D","i","r","e","c","t","o","r","y","E","r","r","o","r">>, <<"K","e","y","E","r","r","o","r">>, 
+  <<"K","e","y","b","o","a","r","d","I","n","t","e","r","r","u","p","t">>, <<"L","o","o","k","u","p","E","r","r","o","r">>, 
+  <<"M","e","m","o","r","y","E","r","r","o","r">>, <<"M","o","d","u","l","e","N","o","t","F","o","u","n","d","E","r","r","o","r">>, 
+  <<"N","a","m","e","E","r","r","o","r">>, <<"N","o","n","e">>, <<"N","o","t","A","D","i","r","e","c","t","o","r","y","E","r","r","o","r">>, 
+  <<"N","o","t","I","m","p","l","e","m","e","n","t","e","d">>, <<"N","o","t","I","m","p","l","e","m","e","n","t","e","d","E","r","r","o","r">>, 
+  <<"O","S","E","r","r","o","r">>, <<"O","v","e","r","f","l","o","w","E","r","r","o","r">>, 
+  <<"P","e","n","d","i","n","g","D","e","p","r","e","c","a","t","i","o","n","W","a","r","n","i","n","g">>, 
+  <<"P","e","r","m","i","s","s","i","o","n","E","r","r","o","r">>, <<"P","r","o","c","e","s","s","L","o","o","k","u","p","E","r","r","o","r">>, 
+  <<"R","e","c","u","r","s","i","o","n","E","r","r","o","r">>, <<"R","e","f","e","r","e","n","c","e","E","r","r","o","r">>, 
+  <<"R","e","s","o","u","r","c","e","W","a","r","n","i","n","g">>, <<"R","u","n","t","i","m","e","E","r","r","o","r">>, 
+  <<"R","u","n","t","i","m","e","W","a","r","n","i","n","g">>, <<"S","t","o","p","A","s","y","n","c","I","t","e","r","a","t","i","o","n">>, 
+  <<"S","t","o","p","I","t","e","r","a","t","i","o","n">>, <<"S","y","n","t","a","x","E","r","r","o","r">>, 
+  <<"S","y","n","t","a","x","W","a","r","n","i","n","g">>, <<"S","y","s","t","e","m","E","r","r","o","r">>, 
+  <<"S","y","s","t","e","m","E","x","i","t">>, <<"T","a","b","E","r","r","o","r">>, <<"T","i","m","e","o","u","t","E","r","r","o","r">>, 
+  <<"T","r","u","e">>, <<"T","y","p","e","E","r","r","o","r">>, <<"U","n","b","o","u","n","d","L","o","c","a","l","E","r","r","o","r">>, 
+  <<"U","n","i","c","o","d","e","D","e","c","o","d","e","E","r","r","o","r">>, 
+  <<"U","n","i","c","o","d","e","E","n","c","o","d","e","E","r","r","o","r">>, <<"U","n","i","c","o","d","e","E","r","r","o","r">>, 
+  <<"U","n","i","c","o","d","e","T","r","a","n","s","l","a","t","e","E","r","r","o","r">>, 
+  <<"U","n","i","c","o","d","e","W","a","r","n","i","n","g">>, <<"U","s","e","r","W","a","r","n","i","n","g">>, 
+  <<"V","a","l","u","e","E","r","r","o","r">>, <<"W","a","r","n","i","n","g">>, 
+  <<"Z","e","r","o","D","i","v","i","s","i","o","n","E","r","r","o","r">>, <<"_","_","b","u","i","l","d","_","c","l","a","s","s","_","_">>, 
+  <<"_","_","d","e","b","u","g","_","_">>, <<"_","_","d","o","c","_","_">>, <<"_","_","i","m","p","o","r","t","_","_">>, 
+  <<"_","_","l","o","a","d","e","r","_","_">>, <<"_","_","n","a","m","e","_","_">>, <<"_","_","p","a","c","k","a","g","e","_","_">>, 
+  <<"_","_","s","p","e","c","_","_">>, <<"a","b","s">>, <<"a","d","d","i","t","i","o","n","a","l","_","p","r","o","p","e","r","t","i","e","s">>, 
+  <<"a","i","t","e","r">>, <<"a","l","l">>, <<"a","n","d">>, <<"a","n","e","x","t">>, <<"a","n","y">>, <<"a","s">>, <<"a","s","c","i","i">>, 
+  <<"a","s","s","e","r","t">>, <<"a","s","y","n","c">>, <<"a","w","a","i","t">>, <<"b","i","n">>, <<"b","o","o","l">>, <<"b","r","e","a","k">>, 
+  <<"b","r","e","a","k","p","o","i","n","t">>, <<"b","y","t","e","a","r","r","a","y">>, <<"b","y","t","e","s">>, <<"c","a","l","l","a","b","l","e">>, 
+  <<"c","a","s","t">>, <<"c","h","r">>, <<"c","l","a","s","s">>, <<"c","l","a","s","s","m","e","t","h","o","d">>, <<"c","l","s">>, 
+  <<"c","o","m","p","i","l","e">>, <<"c","o","m","p","l","e","x">>, <<"c","o","n","t","i","n","u","e">>, <<"c","o","p","y","r","i","g","h","t">>, 
+  <<"c","r","e","d","i","t","s">>, <<"d">>, <<"d","a","t","e","t","i","m","e">>, <<"d","e","f">>, <<"d","e","l">>, <<"d","e","l","a","t","t","r">>, 
+  <<"d","i","c","t">>, <<"d","i","r">>, <<"d","i","v","m","o","d">>, <<"e","l","i","f">>, <<"e","l","s","e">>, 
+  <<"e","n","u","m","e","r","a","t","e">>, <<"e","v","a","l">>, <<"e","x","c","e","p","t">>, <<"e","x","e","c">>, <<"e","x","i","t">>, 
+  <<"f","a","l","s","e">>, <<"f","i","e","l","d","_","d","i","c","t">>, <<"f","i","l","t","e","r">>, <<"f","i","n","a","l","l","y">>, 
+  <<"f","l","o","a","t">>, <<"f","o","r">>, <<"f","o","r","m","a","t">>, <<"f","r","o","m">>, <<"f","r","o","m","_","d","i","c","t">>, 
+  <<"f","r","o","z","e","n","s","e","t">>, <<"g","e","t","a","t","t","r">>, <<"g","l","o","b","a","l">>, <<"g","l","o","b","a","l","s">>, 
+  <<"h","a","s","a","t","t","r">>, <<"h","a","s","h">>, <<"h","e","l","p">>, <<"h","e","x">>, <<"i","f">>, <<"i","m","p","o","r","t">>, <<"i","n">>, 
+  <<"i","n","p","u","t">>, <<"i","n","t">>, <<"i","s">>, <<"i","s","i","n","s","t","a","n","c","e">>, <<"i","s","o","p","a","r","s","e">>, 
+  <<"i","s","s","u","b","c","l","a","s","s">>, <<"i","t","e","r">>, <<"l","a","m","b","d","a">>, <<"l","e","n">>, <<"l","i","c","e","n","s","e">>, 
+  <<"l","i","s","t">>, <<"l","o","c","a","l","s">>, <<"m","a","p">>, <<"m","a","x">>, <<"m","e","m","o","r","y","v","i","e","w">>, <<"m","i","n">>, 
+  <<"n","e","x","t">>, <<"n","o","n","l","o","c","a","l">>, <<"n","o","t">>, <<"o","b","j","e","c","t">>, <<"o","c","t">>, <<"o","p","e","n">>, 
+  <<"o","r">>, <<"o","r","d">>, <<"p","a","s","s">>, <<"p","o","w">>, <<"p","r","i","n","t">>, <<"p","r","o","p","e","r","t","y">>, 
+  <<"q","u","i","t">>, <<"r","a","i","s","e">>, <<"r","a","n","g","e">>, <<"r","e","p","r">>, <<"r","e","t","u","r","n">>, 
+  <<"r","e","v","e","r","s","e","d">>, <<"r","o","u","n","d">>, <<"s","e","l","f">>, <<"s","e","t">>, <<"s","e","t","a","t","t","r">>, 
+  <<"s","l","i","c","e">>, <<"s","o","r","t","e","d">>, <<"s","t","a","t","i","c","m","e","t","h","o","d">>, <<"s","t","r">>, <<"s","u","m">>, 
+  <<"s","u","p","e","r">>, <<"t","o","_","d","i","c","t">>, <<"t","r","u","e">>, <<"t","r","y">>, <<"t","u","p","l","e">>, <<"t","y","p","e">>, 
+  <<"v","a","r","s">>, <<"w","h","i","l","e">>, <<"w","i","t","h">>, <<"y","i","e","l","d">>, <<"z","i","p">> }
+Keywords == {<<"F","a","l","s","e">>, <<"N","o","n","e">>, <<"T","r","u","e">>, <<"a","n","d">>, <<"a","s">>, <<"a","s","s","e","r","t">>, <<"a","s","y","n","c">>, <<"a","w","a","i","t">>, <<"b","r","e","a","k">>, <<"c","l","a","s","s">>, <<"c","o","n","t","i","n","u","e">>, <<"d","e","f">>, <<"d","e","l">>, <<"e","l","i","f">>, <<"e","l","s","e">>, <<"e","x","c","e","p","t">>, <<"f","i","n","a","l","l","y">>, <<"f","o","r">>, <<"f","r","o","m">>, <<"g","l","o","b","a","l">>, <<"i","f">>, <<"i","m","p","o","r","t">>, <<"i","n">>, <<"i","s">>, <<"l","a","m","b","d","a">>, <<"n","o","n","l","o","c","a","l">>, <<"n","o","t">>, <<"o","r">>, <<"p","a","s","s">>, <<"r","a","i","s","e">>, <<"r","e","t","u","r","n">>, <<"t","r","y">>, <<"w","h","i","l","e">>, <<"w","i","t","h">>, <<"y","i","e","l","d">>}
 FixRes(s) == IF s \in Reserved THEN Append(s, "_") ELSE s
 
 IsIdent(s) == s # <<>> /\ s[1] \in XStart /\ \A i \in 2..Len(s) : s[i] \in XCont     \* str.isidentifier
-ValidIdent(s) == IsIdent(s) /\ s \notin { <<"n","o","t">>, <<"N","o","n","e">>, <<"i","n">> }  \* and not a keyword
+ValidIdent(s) == IsIdent(s) /\ s \notin Keywords
 
 PyId(s, prefix, skipSnake) ==
   LET v0 == Sanitize(s)
@@ -163,7 +229,8 @@ Locs == <<"path","query","header","cookie">>
 LocIdx(l) == CHOOSE k \in 1..4 : Locs[k] = l
 LocSuffix(l) == CASE l = "path" -> <<"_","p","a","t","h">> [] l = "query" -> <<"_","q","u","e","r","y">>
                   [] l = "header" -> <<"_","h","e","a","d","e","r">> [] OTHER -> <<"_","c","o","o","k","i","e">>
-ReservedParams == { <<"c","l","i","e","n","t">>, <<"u","r","l">> }
+ReservedParams == { <<"c","l","i","e","n","t">>, <<"u","r","l">>, <<"h","e","a","d","e","r","s">>, <<"p","a","r","a","m","s">>,
+                    <<"c","o","o","k","i","e","s">>, <<"b","o","d","y">> }
 Lookup(used, py) == IF \E k \in 1..Len(used) : used[k][1] = py
                     THEN (CHOOSE k \in 1..Len(used) : used[k][1] = py) ELSE 0
 Put(used, py, idx) == IF Lookup(used, py) # 0 THEN [used EXCEPT ![Lookup(used, py)] = <<py, idx>>]
